@@ -1199,6 +1199,74 @@ def _mj_unequal_case(rng):
     return best or c
 
 
+# -- blank ballots (seeded change C12o: blank score ballots dropped from the number of voters)
+
+def _without_blank(case):
+    return dict(case, votes=[[b, w] for b, w in case['votes'] if b])
+
+
+def _add_blank(rng, votes, maxw=5):
+    """insert one ballot that names nobody (frozenset()) at a random position"""
+    votes = [v for v in votes if v[0]]
+    w = rng.randint(1, maxw)
+    if votes and isinstance(votes[0][1], str):
+        w = str(w)
+    votes.insert(rng.randint(0, len(votes)), [[], w])
+    return votes
+
+
+BLANK_MECHS = ['unscored', 'truncation', 'mixed']
+
+
+def _blank_case(rng, op, mech):
+    """a score-family profile with a blank ballot (a voter who scores nobody) that counts: searched (with the reference) so that
+    dropping the blank ballots changes the outcome of the definition -- through the number of substituted unscored values
+    (mech unscored), the fractional truncation cutoff int(n_ballots * truncation) (mech truncation), the allocated-score quota
+    (op allocated), or any mixture of the corrections (mech mixed)"""
+    c = None
+    for _attempt in range(40 if op != 'star' else 200):
+        c = _score_case(rng, op, m=rng.randint(2, 4))
+        if op != 'allocated':
+            if mech == 'unscored' and op == 'star':
+                # STAR sums: a substituted value from a blank ballot shifts every candidate alike; it counts through the truncation
+                c.update(unscored=rng.choice(['0', '1']), truncation=rng.choice(['1/10', '1/5', '1/4', '1/3']), min_count=0, bottom='0')
+            elif mech == 'unscored':
+                c.update(unscored=rng.choice(['0', '1', 'min']), truncation='0', min_count=0, bottom='0')
+                if op in ('score', 'score_agg'):
+                    c['function'] = rng.choice(['median_low', 'median_low', 'mean', 'sum'])
+            elif mech == 'truncation':
+                c.update(unscored=None, truncation=rng.choice(['1/10', '1/5', '1/4', '1/3']), min_count=0, bottom='0')
+            else:
+                c.update(_agg_settings(rng))
+                if op == 'star' and c['unscored'] == 'min':
+                    c['unscored'] = '0'
+        c['votes'] = _add_blank(rng, c['votes'])
+        try:
+            if _ref_outcome(c) != _ref_outcome(_without_blank(c)):
+                break
+        except Exception:      # noqa
+            continue
+    return c
+
+
+def _blank_typed_case(rng, op):
+    c = _typed_case(rng, op)
+    c['votes'] = _add_blank(rng, c['votes'])
+    return c
+
+
+def _blank_appr_case(rng, op):
+    """an approval profile with a ballot approving nobody: no satisfaction to gain from it, but it is a voter (the justified-
+    representation quota V/n counts it)"""
+    m = rng.randint(2, 5)
+    votes = _add_blank(rng, _appr_profile(rng, m, small=rng.random() < 0.6), maxw=9)
+    if op == 'pav_seq':
+        a, b = rng.randint(1, m), rng.randint(2, m)
+        return {'op': op, 'votes': votes, 'calls': [a, b, a]}
+    return {'op': op, 'votes': votes, 'n': rng.randint(1, m)}
+
+
+
 DIRECTED = [
     # PAV: the witness of fix c5ab27b (one seat on a fresh instance), a tie, call sequences around a two-seat call
     {'op': 'pav', 'votes': [[[0, 1], '3'], [[2], '2']], 'n': 1},
@@ -1273,6 +1341,19 @@ DIRECTED = [
     # allocated score: enough supporters for every quota
     {'op': 'allocated', 'votes': [[[[0, '5'], [1, '2'], [2, '1']], 2], [[[1, '3'], [0, '1'], [2, '0']], 2]], 'n': 3, 'quota': 'hare'},
     {'op': 'allocated', 'votes': [[[[0, '5'], [1, '2']], 4], [[[1, '5'], [0, '1']], 3], [[[2, '4'], [0, '1'], [1, '1']], 3]], 'n': 2, 'quota': 'droop'},
+    # blank ballots (a voter scoring nobody) that decide the outcome: through the number of substituted unscored values and
+    # through the fractional truncation cutoff (the demo profiles of seeded change C12o)
+    {'op': 'score', 'votes': [[[[0, '5'], [1, '2']], 2], [[[0, '4']], 1], [[[1, '3']], 2], [[], 2]], 'n': 1, 'function': 'median_low',
+     'unscored': '0', 'min_count': 0, 'truncation': '0', 'bottom': '0'},
+    {'op': 'mj', 'votes': [[[[0, '5'], [1, '2']], 2], [[[0, '4']], 1], [[[1, '3']], 2], [[], 2]], 'n': 1, 'tie_breaking': 'default',
+     'unscored': '0', 'min_count': 0, 'truncation': '0', 'bottom': '0'},
+    {'op': 'score', 'votes': [[[[0, '5'], [1, '2']], 2], [[[0, '0'], [1, '2']], 1], [[], 3]], 'n': 1, 'function': 'mean',
+     'unscored': 'min', 'min_count': 0, 'truncation': '0', 'bottom': '0'},
+    {'op': 'score', 'votes': [[[[0, '0'], [1, '3']], 2], [[[0, '4'], [1, '3']], 1], [[[0, '4'], [1, '4']], 2], [[[0, '5'], [1, '4']], 2],
+                              [[], 1]], 'n': 1, 'function': 'mean', 'unscored': None, 'min_count': 0, 'truncation': '1/4', 'bottom': '0'},
+    {'op': 'star', 'votes': [[[[0, '2'], [1, '2'], [2, '2'], [3, '0']], 2], [[[0, '1'], [1, '0'], [2, '2'], [3, '2']], 4],
+                             [[[0, '0'], [1, '2'], [2, '0'], [3, '1']], 3], [[], 4]], 'n': 1, 'unscored': None, 'min_count': 0,
+     'truncation': '1/4', 'bottom': '0', 'added_count': 1, 'added_fraction': '0'},
 ]
 
 
@@ -1368,6 +1449,27 @@ def _raw_generate(rng, tier):
                 votes.append([[list(x) for x in b], rng.randint(1, 4)])
         yield {'op': 'mj', 'votes': votes, 'n': rng.randint(1, m), 'tie_breaking': rng.choice(['default', 'default', 'plus']),
                'unscored': rng.choice([None, None, '0']), 'min_count': 0, 'truncation': '0', 'bottom': '0', '_tags': ['mj_directed']}
+    # blank ballots: a voter who scores / approves nobody still is a voter (seeded change C12o)
+    for op in ('score_agg', 'score', 'mj', 'star'):
+        for mech in BLANK_MECHS:
+            for _ in range(40 if q else 600):
+                c = _blank_case(rng, op, mech)
+                c['_tags'] = ['blank_' + mech]
+                yield c
+    for _ in range(80 if q else 1200):
+        c = _blank_case(rng, 'allocated', 'quota')
+        c['_tags'] = ['blank_quota']
+        yield c
+    for op in ('score', 'mj', 'star'):
+        for _ in range(25 if q else 300):
+            c = _blank_typed_case(rng, op)
+            c['_tags'] = ['typed', 'blank_typed']
+            yield c
+    for op in ('pav', 'spav', 'pav_seq'):
+        for _ in range(60 if q else 1000):
+            c = _blank_appr_case(rng, op)
+            c['_tags'] = []
+            yield c
     if not q:
         # small-scope exhaustive: every approval profile over 3 candidates with at most 2 distinct ballots, weights 1..2
         for m, kmax in ((3, 3), (4, 2)):
@@ -1428,6 +1530,8 @@ def _tag(case):
         return
     if op in ('pav', 'pav_seq', 'spav'):
         prof = ref_profile_approval(case)
+        if any(not b for b, _ in prof):
+            tags.append('blank_approval_' + op)
         if any(w.denominator != 1 for _, w in prof):
             tags.append('fraction_weight')
         if any(w > 2 ** 53 for _, w in prof):
@@ -1476,6 +1580,10 @@ def _tag(case):
     ncand = len({c for b, _ in prof for c in b})
     if any(len(b) < ncand for b, _ in prof):
         tags.append('partial_ballot')
+    blank = any(not b for b, _ in prof)
+    if blank:
+        tags.append('blank_ballot')
+        tags.append('blank_ballot_' + op)
     if op != 'allocated' and any(w.denominator != 1 for _, w in prof):
         tags.append('fraction_count')
         return
@@ -1505,6 +1613,24 @@ def _tag(case):
                     tags.append('sens_' + param)
             except Exception:      # noqa
                 pass
+    if blank:
+        # the blank ballots decide the outcome of the definition, and through which correction
+        try:
+            if _ref_outcome(case) != _ref_outcome(_without_blank(case)):
+                tags.append('sens_blank_ballot')
+                tags.append('blank_decides_' + op)
+                if op == 'allocated':
+                    tags.append('blank_decides_quota')
+                else:
+                    u, t = case.get('unscored'), Fraction(case.get('truncation', '0'))
+                    if u is not None and not 0 < t < 1:
+                        tags.append('blank_decides_unscored')
+                    elif u is None and 0 < t < 1:
+                        tags.append('blank_decides_truncation')
+                    else:
+                        tags.append('blank_decides_mixed')
+        except Exception:      # noqa
+            pass
     if 'crossed' in tags:
         tk = 'count' if Fraction(case['truncation']) >= 1 else 'frac'
         tags.append('cross_' + op + ('_' + case['tie_breaking'] if op == 'mj' else '') + '_' + tk)
@@ -1642,6 +1768,11 @@ REQUIRED_COUNTERS = ['pav_unique', 'pav_refusal', 'pav_one_seat', 'pav_one_seat_
                      'cross_mj_default_count', 'cross_mj_default_frac', 'cross_mj_plus_count', 'cross_mj_plus_frac',
                      'cross_star_count', 'cross_star_frac',
                      'cross_seq_score', 'cross_seq_mj_default', 'cross_seq_mj_plus', 'cross_seq_star',
+                     # blank ballots (voters who score / approve nobody) that decide the outcome (seeded change C12o)
+                     'blank_ballot_score_agg', 'blank_ballot_score', 'blank_ballot_mj', 'blank_ballot_star', 'blank_ballot_allocated',
+                     'blank_decides_unscored', 'blank_decides_truncation', 'blank_decides_mixed', 'blank_decides_quota',
+                     'blank_decides_score_agg', 'blank_decides_score', 'blank_decides_mj', 'blank_decides_star', 'blank_typed',
+                     'blank_approval_pav', 'blank_approval_spav', 'blank_approval_pav_seq',
                      # every constructor parameter changes an outcome
                      'sens_unscored', 'sens_min_count', 'sens_truncation', 'sens_bottom', 'sens_function', 'sens_tie_breaking',
                      'sens_added_count', 'sens_added_fraction', 'sens_quota']
@@ -1766,7 +1897,9 @@ RULE = ('approval profiles over 2..6 candidates (1..6 distinct ballots, weights 
         '2^53, 10^18, 10^30 with exact ties and one-vote races for later seats; all five quota functions by name and as callables; '
         'Fraction counts for allocated score; 4-5 candidates sharing the median for 3+ seats (complete and partial ballots, weights '
         'up to 30); one evaluator object called 2-3 times (after an exception, larger before smaller, a differently configured '
-        'object first); per-parameter sensitivity tags. '
+        'object first); per-parameter sensitivity tags; blank ballots (a voter who scores / approves nobody) in score, MJ, STAR, '
+        'allocated-score and approval profiles, searched so that dropping them changes the outcome through the unscored-value '
+        'substitution, the fractional truncation cutoff or the quota. '
         'Non-trivial = at least two candidates and a non-error outcome; distinct by canonical request.')
 TECHNIQUE = ('Lean 4: code-shaped models of approval.py / cardinal.py / convert.py proved equal to the defining computations '
              '(arg-max over all n-subsets, round-wise arg-max, weighted mean / sum / counting median), justified representation by '
